@@ -74,4 +74,72 @@ def listFiles (fs : FS) (pre : String) : List Path :=
 /-- the specification: an atomic map update -/
 def putObj (fs : FS) (name : Path) (data : Bytes) : FS := { fs with files := setFile fs.files name data }
 
+/-! ## two uploads of ONE object in flight at the same time  (C03 "duel")
+
+Two workers of one snapshot that both saw `exists() == False` for a chunk that repeats in the stream (or two commands on one
+directory) run `upload` / `upload_stream` for the same name concurrently: the file-system steps of their attempts interleave in
+any order, and the process can be killed after any of them.  Each attempt is the step list `uploadSteps` above, written as a small
+state machine so that a schedule (which worker moves next) can be run step by step; a PREFIX of a schedule is a crash state.
+
+`tempFor` is `Local._destination_temp`'s choice of the temporary: with a unique-name generator (`NamedTemporaryFile`, `mkstemp`, …;
+`Gen.localTempPrivate`, regenerated from the source) the path `tok` the generator returned for THIS call — by the generator's
+contract (`O_EXCL` creation) different from the path of every other temporary that still exists —, otherwise a name computed from the
+destination alone, which two concurrent uploads of one object share. -/
+
+structure UpCfg where
+  dir : Path
+  name : Path
+  tmp : Path
+  pieces : List Bytes
+deriving Repr
+
+/-- progress of one attempt: nothing yet / directory made / temporary exists and holds `written`, `todo` still to write / renamed -/
+inductive UpSt
+  | init
+  | made
+  | opened (written : Bytes) (todo : List Bytes)
+  | done
+deriving Repr
+
+/-- the next file-system step of the attempt and the state after it -/
+def UpSt.next (c : UpCfg) : UpSt → Option (Step × UpSt)
+  | .init => some (.mkdirP c.dir, .made)
+  | .made => some (.createTemp c.tmp, .opened [] c.pieces)
+  | .opened w (p :: ps) => some (.write c.tmp p, .opened (w ++ p) ps)
+  | .opened _ [] => some (.rename c.tmp c.name, .done)
+  | .done => none
+
+/-- the steps the attempt still has to do (from `init`: exactly `uploadSteps`, see `UpSt.rest_init`) -/
+def UpSt.rest (c : UpCfg) : UpSt → List Step
+  | .init => .mkdirP c.dir :: .createTemp c.tmp :: (c.pieces.map (.write c.tmp) ++ [.rename c.tmp c.name])
+  | .made => .createTemp c.tmp :: (c.pieces.map (.write c.tmp) ++ [.rename c.tmp c.name])
+  | .opened _ todo => todo.map (.write c.tmp) ++ [.rename c.tmp c.name]
+  | .done => []
+
+structure Duel where
+  fs : FS
+  s0 : UpSt
+  s1 : UpSt
+deriving Repr
+
+/-- worker `w` (false = worker 0, true = worker 1) performs its next step; a worker that has finished stays where it is -/
+def duelStep (c0 c1 : UpCfg) (d : Duel) (w : Bool) : Duel :=
+  if w then
+    match d.s1.next c1 with
+    | some (st, s') => { d with fs := apply d.fs st, s1 := s' }
+    | none => d
+  else
+    match d.s0.next c0 with
+    | some (st, s') => { d with fs := apply d.fs st, s0 := s' }
+    | none => d
+
+/-- the two uploads under a schedule; every prefix of a schedule is a schedule: `duelRun … sched` ranges over ALL crash states -/
+def duelRun (c0 c1 : UpCfg) (fs : FS) (sched : List Bool) : Duel := sched.foldl (duelStep c0 c1) ⟨fs, .init, .init⟩
+
+/-- `_destination_temp`: the temporary of an upload of `name` (see the section comment) -/
+def tempFor (priv : Bool) (name tok : Path) : Path := if priv then tok else name ++ Gen.localListExcludes
+
+/-- the temporary the code as it stands uses -/
+def codeTemp (name tok : Path) : Path := tempFor Gen.localTempPrivate name tok
+
 end Replicat.LocalUpload
